@@ -102,8 +102,14 @@ ArgLists ==
     [] Fn = "timeadd" -> {<<S(t), S(d)>> : t \in TSPool, d \in Durations}
     [] Fn = "csvdecode" -> {<<S(t)>> : t \in CsvTexts}
     [] OTHER -> {}
-ASSUME LET sq == SetToSeq(ArgLists) IN
-       ndJsonSerialize(IOEnv.VOUT, [i \in 1..Len(sq) |-> [k |-> "call", api |-> "fn:" \o Fn, xs |-> <<[none |-> TRUE]>>, a |-> sq[i], vs |-> <<>>]])
+\* VMODE = weak (C12): the same domain-shaped lists as concrete bases, each argument weakened in turn to typed unknowns true of it
+GMode == Env("VMODE", "call")
+RankedArgs(a) == \A i \in 1..Len(a) : Ranked(a[i])
+WBase14 == LET R == {a \in ArgLists : RankedArgs(a)} IN IF Thorough THEN R ELSE RandomSubset(IF Cardinality(R) < 250 THEN Cardinality(R) ELSE 250, R)
+Weak14(a) == UNION {{[a EXCEPT ![i] = w] : w \in TakeN({x \in Weak1(a[i], FALSE) : TypedUnknowns(x)}, IF Thorough THEN 12 ELSE 6)} : i \in 1..Len(a)}
+ASSUME LET sq == SetToSeq(IF GMode = "weak" THEN WBase14 ELSE ArgLists) IN
+       ndJsonSerialize(IOEnv.VOUT, [i \in 1..Len(sq) |-> [k |-> GMode, api |-> "fn:" \o Fn, xs |-> <<[none |-> TRUE]>>, a |-> sq[i],
+                                                            vs |-> IF GMode = "weak" THEN SetToSeq(Weak14(sq[i])) ELSE <<>>]])
        /\ PrintT(<<"GEN", Len(sq)>>)
 VARIABLE x
 Init == x = 0
